@@ -495,8 +495,10 @@ class Concatenator(Group):  # pylint: disable=too-many-public-methods
             self.update_array_attribute(entity, entity.name, remove=True)
             # Remove the data from the group
 
-            if entity.property_group is not None:
-                entity.property_group.remove_properties([entity])
+            # every property group of the hole that lists the data
+            for prop_group in list(parent.property_groups or []):
+                if prop_group.properties and entity.uid in prop_group.properties:
+                    prop_group.remove_properties([entity])
 
             # Remove from the concatenated Attributes
             parent_attr = self.get_concatenated_attributes(parent.uid)
